@@ -349,8 +349,24 @@ Definition stored_describes (n : snap) (m : tmarshal) (ro : zroster) : bool :=
   | _ => false
   end.
 
-Definition check_step (p : option snap) (o : zop) (n : snap) : list nat :=
+(* "asked for" = a tree request for the id was actually SENT (the peer received it) and has
+   not been answered since: the ids awaited after a step are those awaited before plus those
+   whose request the peer received during the step, minus those that are no longer marked
+   requested in the store (answered, released, or taken back) *)
+Definition sent_requests (n : snap) : list nat :=
+  flat_map (fun o => match o with ORequestTree t => [t] | _ => [] end) (sn_outs n).
+
+Definition still_requested (n : snap) (tid : nat) : bool :=
+  match lookup (sn_store n) tid with Some (Some None) => true | _ => false end.
+
+Definition next_awaited (aw : list nat) (n : snap) : list nat :=
+  filter (still_requested n) (aw ++ sent_requests n).
+
+Definition check_step (aw : list nat) (p : option snap) (o : zop) (n : snap) : list nat :=
   if negb (is_peer o) then [] else
+  (* 9: the id was marked requested, but no request for it had gone out (the send failed) *)
+  clause 9 (forallb (fun e => negb (changed p e) || negb (is_requested (prev_store p (fst e))) || mem (fst e) aw)
+                    (sn_store n)) ++
   (* 5 / 8: a peer message changes the stored value of an id only while that id is requested and
      not received: 5 = it replaced a tree that was present, 8 = it stored under an id that was absent *)
   clause 5 (forallb (fun e => negb (changed p e) || negb (is_present (prev_store p (fst e)))) (sn_store n)) ++
@@ -379,9 +395,9 @@ Definition check_step (p : option snap) (o : zop) (n : snap) : list nat :=
   | _ => []
   end.
 
-Fixpoint check_hist (p : option snap) (ops : list zop) (snaps : list snap) : list nat :=
+Fixpoint check_hist (aw : list nat) (p : option snap) (ops : list zop) (snaps : list snap) : list nat :=
   match ops, snaps with
-  | o :: ro, n :: rs => check_step p o n ++ check_hist (Some n) ro rs
+  | o :: ro, n :: rs => check_step aw p o n ++ check_hist (next_awaited aw n) (Some n) ro rs
   | _, _ => []
   end.
 
@@ -394,7 +410,9 @@ Fixpoint check_hist (p : option snap) (ops : list zop) (snaps : list snap) : lis
    5 a peer message replaced the tree stored under an id (the id was present, not awaited)
    8 a peer message stored a tree under an id that was absent (never asked for, or released)
    6 a malformed or mismatching description was stored or crashed the handler
-   7 a requested tree, correctly described, was not stored as described *)
+   7 a requested tree, correctly described, was not stored as described
+   9 a peer message stored a tree under an id that was marked requested although no request
+     for it had been sent (the send failed: the server is asking nobody) *)
 Definition check (c : case) : list nat :=
   match c with
   | CRound t ro tm direct bytes binary =>
@@ -429,7 +447,7 @@ Definition check (c : case) : list nat :=
                                     | _ => false
                                     end) views)
       else []
-  | CHist ops snaps => check_hist None ops snaps
+  | CHist ops snaps => check_hist [] None ops snaps
   end.
 
 Definition violations (l : list case) : list (nat * nat) := viols check l.
